@@ -303,7 +303,7 @@ func checkDelivery(r *Result, prop string) []Violation {
 					}
 					if n > 0 && !j.May[id] {
 						out = append(out, viol("C03", "unexpected-delivery", fmt.Sprintf("publish op %d %s delivered to session %q which holds no entitled matching subscription (filters %s, accepted=%v)", oi, op.Pkt, id, fshape, j.Accepted), live[0].Seq,
-							"filters", fshape, "topic", shape(op.Pkt.Topic), "accepted", fmt.Sprint(j.Accepted), "nolocal", fmt.Sprint(j.PubID == id)))
+							"filters", fshape, "topic", shape(op.Pkt.Topic), "accepted", fmt.Sprint(j.Accepted), "selfpub", fmt.Sprint(j.PubID == id), "session", originOf(c)))
 					}
 					if n == 0 && j.Must[id] && c != nil && !stallActive(r, w.StartSeq, w.EndSeq) {
 						pidStr := payloadIDOf(op.Pkt.Payload)
